@@ -572,9 +572,8 @@ status_t WebSocketMessageIOGateway :: CreateReplyFrame(const uint8 * data, uint3
    {
       // Clients must always mask the payloads they send to the server
       const uint32 mask = GetInsecurePseudoRandomNumber32();
-      flat.WriteInt32(mask);
-
       const uint8 * mask8 = reinterpret_cast<const uint8 *>(&mask);
+      flat.WriteBytes(mask8, sizeof(mask));  // the masking-key goes out as the same four bytes, in the same order, that we mask the payload with below (RFC 6455 5.3); WriteInt32() would byte-swap it on a little-endian host
       MRETURN_ON_ERROR(_scratchMaskBuf.SetNumBytes(numBytes, false));
       uint8 * payloadBytes = _scratchMaskBuf.GetBuffer();
       for (uint32 i=0; i<numBytes; i++) payloadBytes[i] = data[i] ^ mask8[i%sizeof(mask)];
